@@ -11,15 +11,21 @@ func init() {
 			"phantom-subnet file; evaluations = requests the registrar ACCEPTED (refusals are counted separately and decide nothing), each passing through all oracles " +
 			"(returned vs forwarded, real station ingest of the forwarded bytes, forged-field, disable-flag, substitution/exclusion); distinct_nontrivial = distinct " +
 			"(transport, lib version, families, disable flag, parameter kind, forged-field set, auth, override set, enforcement, substituted, excluded, params overridden, " +
-			"client address family, number of station registrations) tuples among accepted requests; the weighted-choice verdict of a configuration is only drawn after >= 400 observed substitutions",
+			"client address family, number of station registrations, position of the own phantom relative to nested exclusions, send-fault pattern) tuples among accepted requests; " +
+			"the weighted-choice verdict of a configuration is only drawn after >= 400 observed substitutions. 1 in 6 general requests runs under a send-fault plan on the registrar's socket " +
+			"(ETERM/EINVAL/EAGAIN/EINTR/EHOSTUNREACH/EFSM/generic; always, once, k times, short count): such a case is an evaluation whatever the outcome (told-the-client => a message was ACCEPTED). " +
+			"Stages api and dns repeat the told=>accepted and returned-vs-forwarded oracles through the real HTTP handlers / DNSRegServer.processRequest (half of the requests faulted)",
 		Assumptions: []string{
 			"the station is a real lib.RegistrationManager (both families enabled, min/obfs4/prefix registered) fed through parseRegMessage; ingest stages after parsing (liveness, blocklists) are other properties",
 			"phantom subnets with a leading zero byte, zero total weight and override subnets of /0 are not generated (selector arithmetic is C14's subject)",
 			"'substituted' means: differs from what the configured selector derives for the client; a substitute that happens to equal the client's own phantom is invisible",
+			"a send counts as accepted iff SendBytes returned a nil error (zmq sends are atomic; a short count with nil error is treated as accepted)",
 			"a correct weighted choice misses a subnet holding >= 10 % of the weight in >= 400 independent substitutions with probability < 1e-18 per subnet",
 		},
 		Stages: []Stage{
 			{Name: "registrar", Pkg: "./pkg/regserver/regprocessor", Run: "^TestVerifC12$", Drivers: []string{"regproc"}, Exports: []string{"lib"}, TimeoutQ: 10 * time.Minute, TimeoutT: 40 * time.Minute},
+			{Name: "api", Pkg: "./pkg/regserver/apiregserver", Run: "^TestVerifC12API$", Drivers: []string{"apireg"}, Exports: []string{"regproc"}, TimeoutQ: 10 * time.Minute, TimeoutT: 40 * time.Minute},
+			{Name: "dns", Pkg: "./pkg/regserver/dnsregserver", Run: "^TestVerifC12DNS$", Drivers: []string{"dnsreg"}, Exports: []string{"regproc"}, TimeoutQ: 10 * time.Minute, TimeoutT: 40 * time.Minute},
 		},
 	})
 }
